@@ -227,6 +227,7 @@ def compare_family(
     nontrivial: Optional[Callable[[Case], bool]] = None,
     exhaustive: bool = False,
     canon: Optional[Callable[[str], str]] = None,
+    eq: Optional[Callable[[str, str], bool]] = None,
 ) -> None:
     """Run the model on every case's op line and diff with the implementation's result."""
     t0 = time.time()
@@ -238,7 +239,8 @@ def compare_family(
             o = canon(o)
         if nontrivial is None or nontrivial(c):
             rep.nontrivial.add(c.op)
-        if o != c.impl:
+        same = eq(o, c.impl) if eq else (o == c.impl)
+        if not same:
             bad += 1
             if len(rep.disagreements) < 50:
                 rep.disagreements.append(
